@@ -31,8 +31,9 @@ def budget(tier):
 
 @st.composite
 def cases(draw, tier):
-    spec = draw(gen_fgg.specs(recursive=True, weights=(0.0, 0.1, 0.25, 0.5, 0.5, 1.0, 1.0), max_nts=3,
-                              max_dom=2 if tier == 'quick' else 3, max_edges=3, max_nodes=5))
+    base = gen_fgg.specs(recursive=True, weights=(0.0, 0.1, 0.25, 0.5, 0.5, 1.0, 1.0), max_nts=3,
+                         max_dom=2 if tier == 'quick' else 3, max_edges=3, max_nodes=5)
+    spec = draw(gen_fgg.patterned(base, weights=(0.0, 0.1, 0.25, 0.5, 1.0)) if draw(st.integers(0, 3)) == 0 else base)
     n = 8 if tier == 'quick' else 14
     configs = [[draw(st.sampled_from(KINDS)), draw(st.sampled_from(METHODS)), draw(st.sampled_from(TOLS)),
                 draw(st.sampled_from(KMAXS))] for _ in range(n)]
